@@ -59,6 +59,7 @@ func main() {
 	witn := flag.Int("witnesses", 3, "reachability witnesses to emit")
 	verbose := flag.Bool("v", false, "verbose")
 	slow := flag.String("slowdir", "", "dump slow/unknown queries here")
+	tags := flag.String("tags", "", "build tags for loading (e.g. purego selects the pure-Go variants of dependencies)")
 	maxtime := flag.Int("maxtime", 0, "stop exploring after this many seconds (inconclusive)")
 	flag.Parse()
 
@@ -81,6 +82,9 @@ func main() {
 	}
 	env := append(os.Environ(), "GOFLAGS=", "GOPROXY=off", "GOSUMDB=off", "GOTOOLCHAIN=local")
 	cfg := &packages.Config{Mode: packages.LoadAllSyntax, Dir: *dir, Env: env, Overlay: overlay}
+	if *tags != "" {
+		cfg.BuildFlags = []string{"-tags=" + *tags}
+	}
 	pkgs, err := packages.Load(cfg, *pkgPat)
 	if err != nil {
 		fatal("load: %v", err)
